@@ -198,9 +198,12 @@ func (e *Exec) storeLoc(st *State, l Loc, v Value) {
 	case *LocalLoc:
 		if len(x.Path) == 0 {
 			st.store[x.Cell] = v
-			return
+		} else {
+			st.store[x.Cell] = setPath(st.store[x.Cell], x.Path, v)
 		}
-		st.store[x.Cell] = setPath(st.store[x.Cell], x.Path, v)
+		if r, ok := e.localMirror[x.Cell]; ok {
+			e.storeLoc(st, &HeapLoc{Fam: heapFamily(x.Cell.Typ), Ref: r, Typ: x.Cell.Typ}, st.store[x.Cell])
+		}
 	case *HeapLoc:
 		flattenValue(v, "", func(path string, t *Term) {
 			key := x.Fam + x.Path + path
